@@ -111,3 +111,46 @@ func VH_C17_SID() {
 	vAssert(vIdealEq(kS2[:], kO[:]), "after the stored remote key changed the session id is not the one the new peer derives")
 	vAssert(!vIdealEq(kS2[:], kS[:]), "different static-key secrets give the same session id (identifier did not follow the key)")
 }
+
+// VH_C17_SIDCallbacks: the key-store callback as part of the picture. The
+// listener's onRemoteStatic callback persists the key; while it runs, the
+// accept loop may already ask for the session id (here: the callback itself
+// does), and on a later reconnect - every version-2 handshake calls SetRemote
+// again - the callback may fail (storage error). Neither may derail the
+// rendezvous: after the pairing both parties derive the key-based id, and a
+// failed re-store leaves the party paired (key-based pattern, same id).
+func VH_C17_SIDCallbacks() {
+	ck, sk := vPrivKey("cli_static"), vPrivKey("srv_static")
+	vAssume(!vSamePrivKey(ck, sk))
+	pw := vBytes("pw", 14)
+	pw2 := make([]byte, 14)
+	copy(pw2, pw)
+	calls := 0
+	failSecond := vBool("store_fails_on_reconnect")
+	var s *ConnData
+	s = NewConnData(&keychain.PrivKeyECDH{PrivKey: sk}, nil, pw, nil, func(k *btcec.PublicKey) error {
+		calls++
+		// the accept loop asking for the id while the key is being stored
+		_, _ = s.SID()
+		if calls >= 2 && failSecond {
+			return vErrTimeout
+		}
+		return nil
+	}, nil)
+	c := NewConnData(&keychain.PrivKeyECDH{PrivKey: ck}, nil, pw2, nil, nil, nil)
+	sid0, _ := s.SID()
+	vAssert(s.SetRemote(ck.PubKey()) == nil && c.SetRemote(sk.PubKey()) == nil, "SetRemote failed")
+	kS, err1 := s.SID()
+	kC, err2 := c.SID()
+	vAssert(err1 == nil && err2 == nil, "SID failed")
+	vReach("sid-callbacks")
+	vAssert(vIdealEq(kS[:], kC[:]), "after the pairing the listener is not at the key-derived rendezvous its peer uses (session id read while the key was being stored)")
+	vAssert(!vIdealEq(kS[:], sid0[:]), "the listener still uses the passphrase rendezvous after the pairing")
+	// a reconnect: SetRemote with the same key, the store may fail
+	err := s.SetRemote(ck.PubKey())
+	vAssert((err != nil) == failSecond, "SetRemote did not report the key-store result")
+	vReach("sid-restore")
+	vAssert(s.RemoteKey() != nil && s.HandshakePattern().Name == KK, "a failed re-store of the key un-paired the listener: a client with only the passphrase would be admitted again")
+	kS2, err := s.SID()
+	vAssert(err == nil && vIdealEq(kS2[:], kC[:]), "the listener left the key-derived rendezvous after a reconnect")
+}
